@@ -16,6 +16,8 @@ PROP = dict(
                     "with the exact value of the source / of the characters reported as consumed; query and performing call must agree.  "
                     "A C++ leg creates metatype holders (metatype::generic::create, metatype::create(value), metatype::value<T>, metatype::basic text) "
                     "of every scalar type in PRNG order inside one process and judges each convert() to the 13 targets with the same oracle.  "
+                    "A multi-element leg feeds typed, string and values iterators of 0..3 elements to mpt_fpoint_set / mpt_range_set (element by element through "
+                    "mpt_iterator_consume): every stored element is judged, a present but unconvertible element must refuse the assignment.  "
                     "Exploration, not proof: 32/64-bit and floating sources and numerals are sampled."),
         level_note=("trusts the oracle code in harness/c07_oracle.h (value and C++ legs) and c07_text.c, x87 long double arithmetic (64-bit mantissa holds every "
                     "source value exactly), glibc strtof/strtod/strtold as correctly rounded reference for decimal/hex fractions (plain decimal "
@@ -43,7 +45,12 @@ PROP = dict(
               dict(name="c07_cxx", src=["c07_cxx.cpp"], libs=["mpt++", "mptio", "mptplot", "mptcore"], batch=32,
                    floors={"metatype::generic::convert": 30000, "metatype::create(value)": 15000, "metatype::value<T>::convert": 20000,
                            "metatype::basic::convert": 5000, "value::convert": 10000, "eval:null-address-source": 5000, "eval:conversions": 400000, "monitor:query-verdict-compared": 400000,
-                           "monitor:target-value-compared": 100000, "monitor:refused-not-representable": 50000})],
+                           "monitor:target-value-compared": 100000, "monitor:refused-not-representable": 50000}),
+              dict(name="c07_multi", src=["c07_multi.c"], libs=["mptplot", "mptio", "mptcore"], batch=64,
+                   floors={"mpt_fpoint_set": 80000, "mpt_range_set": 40000, "source:typed-elements": 40000,
+                           "source:mpt_iterator_string": 30000, "source:mpt_iterator_values": 20000,
+                           "monitor:element-value-compared": 20000, "monitor:second-element-compared": 5000,
+                           "monitor:single-element-used-twice": 5000, "eval:assignment-refused": 20000, "eval:assignment-accepted": 20000})],
         rule=("value leg: case = (API, source type, target, block): a block is the complete value range (8-bit), 4096 consecutive values "
               "(16-bit, 16 blocks) or the boundary list plus 1000 (quick) / 4000 (thorough) PRNG values (32/64-bit, floating); every value "
               "is converted with and without destination.  text leg: case = (function [and length / type argument], base, block): every "
